@@ -25,6 +25,25 @@ GRID_Q = [
 ]
 
 
+def rt_order(kind, opts, active, p0, p1, p2):
+    """round trip of a description with several prose-less parameters while every set iterates in a solver-chosen order
+    (string hashing is randomised per process, so every order is a legal environment): the parameter order must not depend on it"""
+    from harness.rt import judge
+    from lib import ndorder
+    from lib.domain import mk_ir, roundtrip
+    import harness.C12 as C12
+
+    ir = mk_ir("p3_two_noprose", p="the a")
+    undo = ndorder.install(C12.MODS)
+    try:
+        ndorder.PICKS[0] = (p0, p1, p2)
+        got = roundtrip(ir, kind, opts)
+    finally:
+        ndorder.PICKS[0] = ()
+        undo()
+    return judge(got, ir, kind, opts, active)
+
+
 def obligations(tier, seed):
     obs = []
     if tier == "quick":
@@ -35,6 +54,14 @@ def obligations(tier, seed):
         for kind, o in (("method", dict(GRID_Q[1][1], ftype_from_ir=True)), ("method", dict(GRID_Q[2][1], ftype_from_ir=True)),
                         ("function", dict(GRID_Q[0][1], ftype_from_ir=True))):
             obs.append(mk_ob("rt", "rt", kind, "p1_int_d", o, tier, funcs=FUNCS))
+        from lib.ob import Ob as _Ob
+
+        for kind, o in (GRID_Q[0], GRID_Q[2]):  # inline types: a prose-less parameter keeps its type in the signature
+            obs.append(_Ob(name="set_order_%s" % kind, params=[("p0", "int"), ("p1", "int"), ("p2", "int")],
+                           pre=["0 <= p0 <= 2 and 0 <= p1 <= 1 and p2 == 0"], body="H.rt_order(%r, %r, {ACTIVE}, p0, p1, p2)" % (kind, o),
+                           witness=(0, 0, 0), bounds="shape p3_two_noprose (one documented + three prose-less parameters), %s, options %r; "
+                           "iteration order of every name set chosen by the solver (lib/ndorder)" % (kind, o), timeout=200, path_timeout=100,
+                           funcs=FUNCS))
         for kind, o in GRID_Q[2:]:
             ob = mk_ob("pair", "rt", kind, "p1_bool_b", o, tier, funcs=FUNCS)
             ob.name = "pair_%s_bool_then_float" % kind
